@@ -20,6 +20,8 @@ THEOREMS = [
     "Inventory.good_lines_survive", "Inventory.good_line_resolves",
     "Inventory.payload_terminates", "Inventory.stripComments_fuel_irrelevant", "Inventory.stripComments_lines",
     "Inventory.update_total", "Inventory.update_spec", "Inventory.update_unusable_reported",
+    "Inventory.getLink_after_update", "Inventory.runSteps_state_ignores_asks", "Inventory.update_latest_wins",
+    "Inventory.failed_update_keeps_links",
     # historical, about the parser before /repo commit f721ca9 (parsePartsOld)
     "Inventory.old_indexError_iff", "Inventory.old_parse_total_counterexample", "Inventory.old_agrees",
     "Inventory.old_good_lines_survive_counterexample",
@@ -36,7 +38,12 @@ RULE = ("(a) exhaustive: every line of <=6 space-separated tokens over {a, 1, -1
         "byte truncation of a valid inventory, wrong compressions, byte corruption, non-UTF-8 payloads, line mutations "
         "(column drop/duplication, non-numeric priority, non-py domain, spaces in names, empty display) mixed with "
         "well-formed lines -> real SphinxInventory.update vs the model; non-trivial = payload decompresses and holds "
-        "at least one mutated and one well-formed line.")
+        "at least one mutated and one well-formed line. Format-string metacharacters (%, %s, %(x)s, %%, {}, {0}, "
+        "percent-escapes) are in the line alphabets (all lines of <=4 tokens over an 11-token alphabet holding one) and in "
+        "the mutations, in malformed and in well-formed lines. (d) one reader over time: random sequences of update(url, bytes) "
+        "(valid, mixed with malformed lines, truncated, corrupt, missing, a second version of the same inventory) interleaved "
+        "with getLink(name), against the model run as a state machine and against what the served files say; non-trivial = "
+        "a name is looked up before a later load (re)defines it.")
 ASSUMPTIONS = [
     "int(token) is transcribed for tokens without non-ASCII decimal digits / non-ASCII whitespace (CPython accepts those too); "
     "such tokens are not generated for the model comparison. CPython's int_max_str_digits is the default 4300.",
@@ -192,9 +199,10 @@ class Cache:
         pass
 
 
-def run_session(updates: Sequence[Tuple[str, Optional[bytes]]], queries: Sequence[str]) -> Tuple[Optional[str], str, List[str], Any]:
-    """successive real `update` calls on one SphinxInventory, then getLink queries.
-    returns (model request or None if outside the int model, canonical impl answer, exception names, inventory)"""
+def run_steps(steps: Sequence[tuple]) -> Tuple[Optional[str], str, List[str], Any, List[Optional[str]]]:
+    """real calls on ONE SphinxInventory, in order: ("U", url, data) = update, ("Q", name) = getLink.
+    returns (model request or None if outside the int model, canonical impl answer, exception names, inventory,
+    the getLink answers in order)"""
     from pydoctor import sphinx
     log = Log()
     inv = sphinx.SphinxInventory(logger=log)
@@ -202,10 +210,23 @@ def run_session(updates: Sequence[Tuple[str, Optional[bytes]]], queries: Sequenc
     real_zlib = sphinx.zlib
     sphinx.zlib = spy  # type: ignore
     outs, req, excs = [], ["inventory session"], []
+    answers: List[Optional[str]] = []
     modelable = True
     canon_msgs: List[str] = []
     try:
-        for url, data in updates:
+        for st in steps:
+            if st[0] == "Q":
+                req.append("Q " + enc(st[1]))
+                try:
+                    ans = inv.getLink(st[1])
+                    outs.append("q=" + show_opt(ans))
+                except Exception as e:  # a lookup must not raise either
+                    ans = None
+                    excs.append(type(e).__name__)
+                    outs.append("q=EXC:" + type(e).__name__)
+                answers.append(ans)
+                continue
+            _, url, data = st
             n0, m0 = len(spy.calls), len(log.msgs)
             try:
                 inv.update(Cache(data), url)
@@ -228,14 +249,16 @@ def run_session(updates: Sequence[Tuple[str, Optional[bytes]]], queries: Sequenc
             req.append(f"U {enc(url)} {'N' if data is None else hexb(data)} {z}")
     finally:
         sphinx.zlib = real_zlib  # type: ignore
-    answers = []
-    for q in queries:
-        req.append("Q " + enc(q))
-        answers.append(show_opt(inv.getLink(q)))
-    impl = f"{' '.join(outs)} | {canon_links(inv._links)} | {' '.join(canon_msgs) or '-'} | {' '.join(answers) or '-'}"
+    impl = f"{' '.join(outs) or '-'} | {canon_links(inv._links)} | {' '.join(canon_msgs) or '-'}"
     inv._c17_log = list(log.msgs)  # type: ignore
     inv._c17_z = [z for _, z in spy.calls]  # type: ignore
-    return (" ".join(req) if modelable else None), impl, excs, inv
+    return (" ".join(req) if modelable else None), impl, excs, inv, answers
+
+
+def run_session(updates: Sequence[Tuple[str, Optional[bytes]]], queries: Sequence[str]) -> Tuple[Optional[str], str, List[str], Any]:
+    """successive real `update` calls on one SphinxInventory, then getLink queries"""
+    req, impl, excs, inv, _ = run_steps([("U", u, d) for u, d in updates] + [("Q", q) for q in queries])
+    return req, impl, excs, inv
 
 
 # ------------------------------------------------------------------ stream (a): lines
@@ -243,7 +266,10 @@ def run_session(updates: Sequence[Tuple[str, Optional[bytes]]], queries: Sequenc
 ALPHA = ["a", "1", "-1", "py:x", "std:y", "-", ""]
 WIDE = ALPHA + ["+1", "1_0", "\t1", "1\t", "0x1", "1.0", "--1", "1_", "_1", "1__0", "00", "-0_0", "+", "é", "名1", "py:", "py",
                 "PY:x", "$", "l$", "9" * 4300, "9" * 4301, "-" + "0" * 4301, "1_" * 4300 + "1", "\x0b1\x0c", "\x1c1", "1\x00",
-                "a\nb", "1\r", "\r\n", "x\x85", "\u2028", "\u2029z", "\x1d", "\x1e2", "\x0c", "py:méthode", "b.c", "loc.html#a"]
+                "a\nb", "1\r", "\r\n", "x\x85", "\u2028", "\u2029z", "\x1d", "\x1e2", "\x0c", "py:méthode", "b.c", "loc.html#a",
+                "%", "%s", "%(x)s", "%%", "{}", "{0}", "caf%C3%A9", "100%", "%d", "py:%s", "{x!r}", "%-1", "$%"]
+# format-string metacharacters: every line of <= 4 tokens over this alphabet is run as well
+PCT = ["a", "1", "py:x", "-", "%", "%s", "%(x)s", "%%", "{}", "{0}", "caf%C3%A9"]
 
 
 def stream_lines(ctx: Ctx) -> None:
@@ -255,6 +281,10 @@ def stream_lines(ctx: Ctx) -> None:
     for n in range(1, maxlen + 1):
         for toks in itertools.product(ALPHA, repeat=n):
             lines.append(" ".join(toks))
+    for n in range(1, 5):
+        for toks in itertools.product(PCT, repeat=n):
+            if any(("%" in t or "{" in t) for t in toks):
+                lines.append(" ".join(toks))
     ctx.extra["exhaustive_lines"] = len(lines)
     nrand = 4000 if ctx.quick else 120000
     for _ in range(nrand):
@@ -627,6 +657,8 @@ GOOD_LINES = [
     "pkg.mod.func py:function -1 pkg.mod.html#$ -",
     "pkg.mod.attr py:attribute 1 pkg.mod.html#attr Display Name",
     "pkg.dollar py:function -1 api/$ -",
+    "pkg.caf%C3%A9 py:function -1 pkg.html#caf%C3%A9 100% {} %s",
+    "pkg.%(fmt)s py:attribute -1 a%sb/{0}.html#%% -",
 ]
 
 
@@ -635,7 +667,8 @@ def mutate_line(rng, i: int) -> Tuple[str, str]:
     name = f"zz{i}.obj"
     cols = [name, "py:function", "-1", f"zz{i}.html", "-"]
     kind = rng.choice(["drop-col", "dup-col", "bad-prio", "non-py", "space-name", "empty-display", "prio-last", "empty-line",
-                       "junk", "int-name", "two-prio", "only-name", "tabs", "empty-location", "dollar-only", "lead-space"])
+                       "junk", "int-name", "two-prio", "only-name", "tabs", "empty-location", "dollar-only", "lead-space",
+                       "pct-junk", "pct-truncated", "pct-columns"])
     if kind == "drop-col":
         j = rng.randrange(5)
         cols = cols[:j] + cols[j + 1:]
@@ -670,6 +703,14 @@ def mutate_line(rng, i: int) -> Tuple[str, str]:
         cols[3] = "$"
     elif kind == "lead-space":
         cols = [""] + cols
+    elif kind == "pct-junk":      # malformed lines holding format-string metacharacters
+        cols = [rng.choice(['<td width="50%">404 Not Found</td>', "discount 100%", "%", "%s %s %s", "%(line)s", "{} {0} {x}",
+                            "100%% sure", "%d items py:x", "caf%C3%A9", "%n%n%n%n", "{", "}{"])]
+    elif kind == "pct-truncated":  # a quoted name, columns missing
+        cols = [f"zz{i}.caf%C3%A9", "py:function"] + rng.choice([[], ["-1"], ["-1", "zz.html#%C3%A9"], ["x%sx"]])
+    elif kind == "pct-columns":    # metacharacters inside otherwise plausible columns
+        j = rng.randrange(5)
+        cols[j] = rng.choice(["%", "%s", "%(x)s", "%%", "{}", "{0}", "100%"]) + (cols[j] if j in (0, 1) else "")
     return kind, " ".join(cols)
 
 
@@ -683,7 +724,8 @@ def stream_robust(ctx: Ctx) -> None:
     good_names = [l.split(" ")[0] for l in GOOD_LINES]
     good_want = {"pkg": "index.html", "pkg.mod": "pkg.mod.html", "pkg.mod.C": "pkg.mod.C.html",
                  "pkg.mod.C.meth": "pkg.mod.C.html#meth", "pkg.mod.func": "pkg.mod.html#pkg.mod.func",
-                 "pkg.mod.attr": "pkg.mod.html#attr", "pkg.dollar": "api/pkg.dollar"}
+                 "pkg.mod.attr": "pkg.mod.html#attr", "pkg.dollar": "api/pkg.dollar",
+                 "pkg.caf%C3%A9": "pkg.html#caf%C3%A9", "pkg.%(fmt)s": "a%sb/{0}.html#%%"}
 
     def one(kind: str, updates, label, n_mut: int = 0, expect_good: bool = False) -> None:
         sreq, simpl, excs, inv = run_session(updates, good_names + ["zz0.obj", "nope"])
@@ -797,10 +839,121 @@ def strip_comments_py(data: bytes) -> bytes:
 
 # ------------------------------------------------------------------ run / replay
 
+# ------------------------------------------------------------------ stream (d): one reader over time
+
+SEQ_HEADER = b"# Sphinx inventory version 2\n# Project: q\n# Version: 2\n# The rest of this file is compressed with zlib.\n"
+SEQ_INV = {
+    "A": ("http://a/x/objects.inv", [("a.m", "py:module", "a.m.html"), ("a.m.C", "py:class", "a.m.C.html"),
+                                     ("a.m.f", "py:function", "a.m.html#$"), ("shared.name", "py:function", "A/shared.html")]),
+    "B1": ("http://b/objects.inv", [("b.mod", "py:module", "b.mod.html"), ("b.mod.K", "py:class", "b.mod.K.html"),
+                                    ("b.mod.K.meth", "py:method", "b.mod.K.html#meth"), ("shared.name", "py:function", "B1/shared.html"),
+                                    ("b.caf%C3%A9", "py:function", "b.html#caf%C3%A9")]),
+    "B2": ("http://b/objects.inv", [("b.mod", "py:module", "v2/b.mod.html"), ("b.mod.K", "py:class", "v2/b.mod.K.html#$"),
+                                    ("b.new", "py:function", "v2/b.html#new"), ("shared.name", "py:function", "B2/shared.html")]),
+    "C": ("http://c/d/e/objects.inv", [("c.x", "py:attribute", "c.html#x"), ("a.m.C", "py:class", "c/override.html")]),
+}
+SEQ_BAD = ["junk", "discount 100%", "zz.q py:function -1", '<td width="50%">', "zz.r std:label -1 z.html -", "%s %(x)s {}", ""]
+
+
+def seq_bytes(rng, key: str, variant: str) -> Tuple[Optional[bytes], bool]:
+    """bytes served for inventory `key` in the given variant; second component: the entries must load"""
+    url, entries = SEQ_INV[key]
+    lines = [f"{n} {t} -1 {l} -" for n, t, l in entries]
+    if variant == "mixed":
+        for _ in range(rng.randint(1, 3)):
+            lines.insert(rng.randint(0, len(lines)), rng.choice(SEQ_BAD))
+    data = SEQ_HEADER + zlib.compress(("\n".join(lines) + "\n").encode("utf-8"))
+    if variant in ("valid", "mixed"):
+        return data, True
+    if variant == "truncated":
+        return data[:rng.randrange(len(SEQ_HEADER) - 5, len(data) - 1)], False
+    if variant == "corrupt":
+        d = bytearray(data)
+        for _ in range(3):
+            d[rng.randrange(len(SEQ_HEADER), len(d))] ^= 1 + rng.randrange(255)
+        return bytes(d), False
+    if variant == "none":
+        return None, False
+    return b"<html>404</html>\n", False
+
+
+def stream_sequences(ctx: Ctx) -> None:
+    reqs: List[str] = []
+    impls: List[str] = []
+    pay: List[Any] = []
+    names = sorted({n for _, es in SEQ_INV.values() for n, _, _ in es}) + ["no.such", "b", ""]
+    nseq = 500 if ctx.quick else 12000
+    for _ in range(nseq):
+        steps: List[tuple] = []
+        meta: List[Any] = []
+        for _ in range(ctx.rng.randint(3, 12)):
+            if ctx.rng.random() < 0.55:
+                steps.append(("Q", ctx.rng.choice(names)))
+                meta.append(None)
+            else:
+                key = ctx.rng.choice(["A", "B1", "B2", "B1", "B2", "C"])
+                variant = ctx.rng.choice(["valid", "valid", "valid", "mixed", "truncated", "corrupt", "none", "html"])
+                data, loads = seq_bytes(ctx.rng, key, variant)
+                steps.append(("U", SEQ_INV[key][0], data))
+                meta.append((key, variant, loads))
+        req, impl, excs, inv, answers = run_steps(steps)
+        label = {"steps": [[st[0], st[1]] + ([None if st[2] is None else st[2].hex()] if st[0] == "U" else []) for st in steps]}
+        if req is not None:
+            reqs.append(req)
+            impls.append(impl)
+            pay.append(label)
+        # direct oracle: replay the sequence against what each served file *says* (no parser, no model)
+        exp: Dict[str, Tuple[str, str]] = {}
+        asked_before: set = set()
+        nontriv = False
+        ai = 0
+        skip = False
+        for st, m in zip(steps, meta):
+            if st[0] == "U":
+                key, variant, loads = m
+                if loads:
+                    base = st[1].rsplit("/", 1)[0]
+                    for n, t, l in SEQ_INV[key][1]:
+                        if n in asked_before:
+                            nontriv = True
+                        exp[n] = (base, l)
+                elif st[2]:
+                    try:  # a damaged copy that still decompresses would legitimately load something: not judged
+                        zlib.decompress(strip_comments_py(st[2]))
+                        skip = True
+                    except zlib.error:
+                        pass
+            else:
+                name = st[1]
+                asked_before.add(name)
+                got = answers[ai]
+                ai += 1
+                if skip:
+                    continue
+                want = None
+                if name in exp and exp[name][1]:
+                    b, l = exp[name]
+                    want = b + "/" + (l[:-1] + name if l.endswith("$") else l)
+                if got != want:
+                    ctx.fail("lookup-not-current", label,
+                             f"getLink({name!r}) = {got!r} but the inventories loaded so far say {want!r} (earlier lookups / failed loads must not matter)")
+                    break
+        if excs:
+            ctx.fail("sequence-raises:" + excs[0], label, f"a call on the reader raised {excs[0]}")
+        ctx.case("seq " + (req or repr(label)), nontriv,
+                 {"steps": [(st[0], st[1]) for st in steps], "impl": impl[:200]} if nontriv and ctx.dist.get("seq:sampled", 0) < 1 and not ctx.count("seq:sampled") else None)
+        ctx.count("seq:len=%d" % len(steps))
+        for m in meta:
+            if m:
+                ctx.count("seq:update:" + m[1])
+    compare(ctx, "sequences", reqs, impls, pay)
+
+
 def run(ctx: Ctx) -> None:
     stream_lines(ctx)
     stream_projects(ctx)
     stream_robust(ctx)
+    stream_sequences(ctx)
 
 
 def replay(ctx: Ctx, obj) -> int:
@@ -827,6 +980,16 @@ def replay(ctx: Ctx, obj) -> int:
         print("oracle :", (f"SphinxInventory.update raised {excs[0]} (the run aborts); well-formed lines lost: {lost}") if excs
               else "property holds on this input: update returned" + (f", {len(good)} well-formed line(s) resolve" if good and not lost else ""))
         bad = 1 if excs else 0
+    elif "steps" in inp:
+        steps = [("U", x[1], None if x[2] is None else bytes.fromhex(x[2])) if x[0] == "U" else ("Q", x[1]) for x in inp["steps"]]
+        sreq, simpl, excs, inv, answers = run_steps(steps)
+        for x in steps:
+            print("step   :", x[0], x[1] if x[0] == "Q" else f"{x[1]} ({'None' if x[2] is None else str(len(x[2])) + ' bytes'})")
+        print("impl   :", simpl[:1500])
+        print("model  :", _model(ctx, sreq)[:1500] if sreq else "outside the int model")
+        print("oracle :", f"raised {excs}" if excs else ("model and implementation agree" if sreq and _model(ctx, sreq) == simpl
+              else "implementation differs from the state machine getLink = lookup in the current links"))
+        bad = 1 if excs or (sreq and _model(ctx, sreq) != simpl) else 0
     elif "session" in inp:
         ups = [(u, None if d is None else bytes.fromhex(d)) for u, d in inp["session"]]
         sreq, simpl, excs, inv = run_session(ups, inp.get("queries", [l.split(" ")[0] for l in GOOD_LINES]))
